@@ -4,6 +4,34 @@
 #include <string.h>
 #include "util.h"
 
+#ifdef CPROC_VERIF
+/* verification hook: $CPROC_VERIF_HASH substitutes another hash function (identity when unset) */
+static unsigned long
+vhash(unsigned long h)
+{
+	static int mode = -1;
+	static unsigned long arg;
+	const char *s;
+
+	if (mode < 0) {
+		s = getenv("CPROC_VERIF_HASH");
+		mode = 0;
+		if (s && strcmp(s, "const") == 0)
+			mode = 1;
+		else if (s && strncmp(s, "xor:", 4) == 0)
+			mode = 2, arg = strtoul(s + 4, NULL, 0);
+		else if (s && strcmp(s, "low2") == 0)
+			mode = 3;
+	}
+	switch (mode) {
+	case 1: return 7;
+	case 2: return (h ^ arg) * 0x9e3779b1u;
+	case 3: return h & 3;
+	}
+	return h;
+}
+#endif
+
 static unsigned long
 hash(const void *ptr, size_t len)
 {
@@ -14,6 +42,9 @@ hash(const void *ptr, size_t len)
 	h = 0x811c9dc5;
 	for (pos = ptr, end = pos + len; pos != end; ++pos)
 		h = (h ^ *pos) * 0x1000193;
+#ifdef CPROC_VERIF
+	h = vhash(h);
+#endif
 	return h;
 }
 
